@@ -415,6 +415,9 @@ def cond_at(view, c):
     return view.at_term(c.site[1]) if c.site[0] == "c" else (c.site[1], c.site[2])
 
 
+_NEG_OP = {"==": "!=", "!=": "==", "<": ">=", ">=": "<", ">": "<=", "<=": ">"}
+
+
 def two_var_table(view, class_x, class_y, targets, resolver=None, from_block=None):
     """Regions of X vs Y for comparisons whose operands satisfy class_x / class_y (origin-set
     predicates, either orientation). Returns ({region: target reachable}, n_tracked, blocks)."""
@@ -435,20 +438,54 @@ def two_var_table(view, class_x, class_y, targets, resolver=None, from_block=Non
             r = classify(c)
             if r:
                 tracked[b] = (c, r[1])
+    # a bool variable tested at several places (`let first = ..; if first && x < y { return Err }; if first { .. }`) has
+    # one value per execution: every assignment of such variables is walked separately
+    def ckey(c):
+        if c.kind == "place" and not c.pl["p"]:
+            return ("pl", c.pl["l"])
+        if c.kind in ("cmp", "call") and getattr(c, "site", None) is not None:
+            return ("site",) + tuple(c.site)
+        return None
+    by_local = {}
+    ref = {}
+    for b, c, _ in switch_conds(view):
+        k = ckey(c)
+        if k is not None and b not in tracked:
+            by_local.setdefault(k, []).append(b)
+            ref.setdefault(k, c)
+    shared = sorted((l for l, bs in by_local.items() if len(bs) >= 2), key=repr)[:3]
+    combos = list(itertools.product((True, False), repeat=len(shared))) or [()]
     out = {}
     for region in REGIONS:
-        def decide(b, c, region=region):
-            t = tracked.get(b)
-            if not t:
+        hit = False
+        for combo in combos:
+            val = dict(zip(shared, combo))
+
+            def decide(b, c, region=region, val=val):
+                t = tracked.get(b)
+                if t:
+                    op = t[0].op if t[1] == "fwd" else FLIP[t[0].op]
+                    return cmp_truth(op, region)
+                k = ckey(c)
+                if k in val:
+                    # the value of the tested expression; `neg` and the comparison operator of a negated copy are part of
+                    # how THIS switch reads it
+                    if c.kind == "cmp":
+                        r0 = ref[k]
+                        if c.op == r0.op:
+                            return val[k]
+                        if c.op == _NEG_OP.get(r0.op):
+                            return not val[k]
+                        return None
+                    return val[k] != bool(getattr(c, "neg", False))
                 return None
-            op = t[0].op if t[1] == "fwd" else FLIP[t[0].op]
-            return cmp_truth(op, region)
-        if from_block is None:
-            reach = region_walk(view, decide)
-        else:
-            r0 = region_walk(view, decide)
-            reach = region_walk(view, decide, start=from_block) if from_block in r0 else set()
-        out[region] = bool(reach & set(targets))
+            if from_block is None:
+                reach = region_walk(view, decide)
+            else:
+                r0 = region_walk(view, decide)
+                reach = region_walk(view, decide, start=from_block) if from_block in r0 else set()
+            hit = hit or bool(reach & set(targets))
+        out[region] = hit
     return out, len(tracked), sorted(tracked)
 
 
